@@ -38,7 +38,6 @@ func NewRefStore() (ref.Store, func()) {
 	if err != nil {
 		panic(err)
 	}
-	db.SetMaxOpenConns(1)
 	for _, stmt := range refsql.CreateTableStmts {
 		if _, err := db.Exec(stmt); err != nil {
 			panic(err)
